@@ -1,7 +1,10 @@
 """C10 - HTTP client and server exchange exact methods, headers, status and bodies (spec/HttpExchange.tla)."""
 import concurrent.futures as cf
 import os
+import re
+import shutil
 import subprocess
+import threading
 import vlib
 
 META = {
@@ -42,8 +45,75 @@ META = {
                   "with a body, 100-continue asked by an HTTP/1.0 peer, the json() fall-back to a query string, patterns with a "
                   "'*' that is not last and suffix() after a failed match, the body of 404/501 answers, the Content-Type of files "
                   "without extension. File times are whole seconds (POSIX); the static tree lives in a real directory under the "
-                  "check's scratch directory.",
+                  "check's scratch directory. Wall time: asl ends exchanges by itself after fixed times (a connection is dropped "
+                  "10 s after it was accepted and after 5 s without data; a body is handed over truncated after 10 s without "
+                  "input); the property does not forbid that and an overloaded machine provokes it, so the observation of a "
+                  "recorded exchange that took 4 s or longer (field ms, monotonic clock) is not constrained by the trace "
+                  "specifications; the number of such exchanges is in the evidence (coverage.slow_exchanges) and a recording with "
+                  "more than max(20, 2 %) of them is reported as a server that does not answer in time.",
 }
+
+# ---- wall time of recorded exchanges ------------------------------------------------------------------------------------------
+# Every exchange-type event of the C10 recorders carries "ms" (harness/c10_common.h).  The Trace_Http* specifications do not
+# constrain an event with ms >= SlowMs (the library's own time limits may have fired: a design decision of asl, provoked by an
+# overloaded machine, not forbidden by the property).  So that a server which does not answer is not masked, a recording may
+# contain at most max(SLOW_MIN, SLOW_SHARE of its exchanges) such events.  (On a machine that is merely overloaded the bound is
+# out of reach: a recording with that many exchanges of 4 s and more does not finish within the recorder's time limit.)
+SLOW_MS = 4000          # = SlowMs of spec/Trace_Http*.tla = C10_SLOW_MS of harness/c10_common.h
+SLOW_MIN = 20
+SLOW_SHARE = 0.02
+_MS = re.compile(rb'^\{"e":"(\w+)","ms":(\d+)')
+EXCHANGE_EVENTS = {"V/HttpExchange": ("recv",), "V/HttpRedirect": ("call",), "V/HttpServerRules": ("xchg", "end"),
+                   "V/HttpStatic": ("get",), "V/HttpTransfer": ("upload", "download", "form", "route")}
+_slow_lock = threading.Lock()
+
+
+def slow_count(path, kinds=None):
+    """(slow, all) exchange events of a recorded file."""
+    n = m = 0
+    prev_slow = False
+    with open(path, "rb") as fh:
+        for ln in fh:
+            mt = _MS.match(ln)
+            if mt and (kinds is None or mt.group(1).decode() in kinds):
+                slow = int(mt.group(2)) >= SLOW_MS
+                if mt.group(1) == b"end" and slow and prev_slow:
+                    continue        # (the end of a connection abandoned after a slow exchange: the same exchange, not another one)
+                m += 1
+                n += slow
+                prev_slow = slow
+    return n, m
+
+
+def slow_verdict(n, m):
+    if n > max(SLOW_MIN, SLOW_SHARE * m):
+        return ("server does not answer in time: %d of %d exchanges slower than %d s (allowed: max(%d, %g %%))"
+                % (n, m, SLOW_MS // 1000, SLOW_MIN, SLOW_SHARE * 100))
+    return None
+
+
+def slow_rule(ctx, label, files):
+    """Counts the slow exchanges of the recorded files (evidence) and reports a file that has too many of them."""
+    kinds = EXCHANGE_EVENTS[label]
+    tn = tm = worst = 0
+    for f in files:
+        n, m = slow_count(f, kinds)
+        tn += n
+        tm += m
+        worst = max(worst, n)
+        v = slow_verdict(n, m)
+        if v:
+            keep = os.path.join(ctx.replay_dir, "%s-slow-%s" % (label.replace("/", "_"), os.path.basename(f)))
+            os.makedirs(ctx.replay_dir, exist_ok=True)
+            shutil.copyfile(f, keep)
+            with _slow_lock:
+                ctx.violation("%s: %s in %s" % (label, v, os.path.basename(f)), path=keep)
+    with _slow_lock:
+        ctx.extra.setdefault("slow_exchanges", {})[label] = {"slow": tn, "exchanges": tm, "files": len(files), "most_in_one_file": worst}
+        ctx.engines.append("%s: %d of %d recorded exchanges took %d s or longer (observation not constrained)" % (label, tn, tm, SLOW_MS // 1000))
+        if tn:
+            ctx.assumptions.append("%s: %d of %d recorded exchanges took %d s or longer on this machine (the library's own time "
+                                   "limits may have fired); their observations are not constrained" % (label, tn, tm, SLOW_MS // 1000))
 
 
 def run(ctx):
@@ -65,11 +135,12 @@ def exchange(ctx, lib):
     ctx.model("HttpCases", ctx.pick("MC_HttpCases_quick", "MC_HttpCases_thorough"), emit_to=cases, workers=1, xss="1g",
               timeout=ctx.pick(300, 1800), must_cover=False)
     rep = vlib.build_harness(lib, "c10_replay", ["c10_replay.cpp"])
-    ctx.replay(rep, cases, label="R/HttpCases", args=["--batch", "40", "--case-timeout-ms", "60000"], timeout=ctx.pick(900, 3600),
+    ctx.replay(rep, cases, label="R/HttpCases", args=["--batch", "40", "--case-timeout-ms", "120000"], timeout=ctx.pick(900, 3600),
                jobs=ctx.pick(8, 16))
     # V: concurrent library clients + raw fragmented / keep-alive / chunked clients
     rec = vlib.build_harness(lib, "c10_record", ["c10_record.cpp"])
     files = ctx.record(rec, ctx.pick(8, 32), ctx.pick(1500, 8000), "V/HttpExchange", timeout=ctx.pick(600, 2400))
+    slow_rule(ctx, "V/HttpExchange", files)
     ctx.validate_traces("Trace_HttpExchange", "Trace_HttpExchange", files, label="V/HttpExchange", timeout=ctx.pick(900, 3000), xss="256m")
     ctx.assumptions += ["request/response descriptors of the recorded runs are random (seeded); every request carries its own "
                         "response descriptor so that cross-delivery is observable"]
@@ -118,7 +189,7 @@ def grow_r(ctx, lib):
                     out.write(ln)
                     n += 1
             ctx.engines.append("%s: %d cases printed by %s/%s" % (label, n, spec.replace(".tla", ""), cfg))
-    ctx.replay(site, merged, label="R/HttpSite", args=["--batch", "60", "--case-timeout-ms", "60000"], timeout=ctx.pick(900, 3000),
+    ctx.replay(site, merged, label="R/HttpSite", args=["--batch", "60", "--case-timeout-ms", "120000"], timeout=ctx.pick(900, 3000),
                jobs=ctx.pick(12, 16), env={"C10_TMP": ctx.tmp, "TZ": zone(ctx, "VRF-8")})
 
 
@@ -144,6 +215,7 @@ def grow_v(ctx, lib):
         recorded = list(ex.map(record, GROW_V))
     def validate(mf):
         (mode, label, spec, start), files = mf
+        slow_rule(ctx, label, files)
         ok = ctx.validate_traces(spec, spec, files, label=label, timeout=ctx.pick(900, 3000), xss="256m", parallel=4)
         n = 0
         if ok == len(files):
@@ -161,6 +233,15 @@ def replay(path):
     path = os.path.abspath(path)      # (TLC runs in spec/)
     lib = vlib.build_lib("asan")
     base = os.path.basename(path)
+    if path.endswith(".ndjson"):      # a recording with too many slow exchanges is a violation by itself
+        kinds = None
+        for label in EXCHANGE_EVENTS:
+            if label.replace("/", "_") in base:
+                kinds = EXCHANGE_EVENTS[label]
+        v = slow_verdict(*slow_count(path, kinds or EXCHANGE_EVENTS["V/HttpExchange"]))
+        if v:
+            print(v)
+            return 1
     for mode, label, spec, start in GROW_V:
         if label.replace("/", "_") in base:
             return vlib.replay_recorded(path, lib, "c10_site_record", ["c10_site_record.cpp"], spec, spec, xss="256m")
